@@ -142,6 +142,22 @@ where
         log(format!("ctr::freeze({flag})"));
         Ok(Response::new())
     }
+    // names and argument lists shared with handlers of *other* kinds (C04)
+    #[sv::msg(query)]
+    fn ping(&self, ctx: QueryCtx) -> StdResult<Out> {
+        log("ctr::query::ping".into());
+        Ok(Out { who: "pong".into() })
+    }
+    #[sv::msg(sudo)]
+    fn burn_from2(&self, ctx: SudoCtx, who: String, amount: u64) -> StdResult<Response> {
+        log(format!("ctr::sudo::burn_from2({who},{amount})"));
+        Ok(Response::new())
+    }
+    #[sv::msg(migrate)]
+    fn migrate(&self, ctx: sylvia::ctx::MigrateCtx, owner: String, init: T) -> StdResult<Response> {
+        log("ctr::migrate".into());
+        Ok(Response::new())
+    }
     // one handler name per data mode
     #[sv::msg(reply, handlers=[d_raw], reply_on=success)]
     fn d_raw_ok(&self, ctx: ReplyCtx, #[sv::data(raw)] data: Binary, #[sv::payload(raw)] payload: Binary) -> StdResult<Response> {
@@ -176,3 +192,17 @@ where
 }
 
 pub type CtrC = Ctr<Rec>;
+
+/// Kind of the handler that wrote a log line (fixture-specific table; C04 oracle).
+pub fn kind_of_log(line: &str) -> &'static str {
+    let head = line.split('(').next().unwrap_or(line);
+    match head {
+        "ctr::instantiate" => "instantiate",
+        "ctr::migrate" => "migrate",
+        "ctr::add_member2" | "ctr::x" | "if_a::burn_from2" | "if_a::ping" | "if_b::set_v2_admin" => "exec",
+        "ctr::list_all_10" | "ctr::query::ping" | "if_a::balance_of" | "if_b::admin" => "query",
+        "ctr::freeze" | "ctr::sudo::burn_from2" | "if_a::mint" | "if_b::mint" => "sudo",
+        h if h.starts_with("d_") => "reply",
+        _ => "unknown",
+    }
+}
